@@ -176,7 +176,7 @@ def R_subst(toks, arg):
     while i < len(toks):
         if [x.text for x in toks[i:i+len(f)]] == f:
             new, _ = tokenize(to)
-            for x in new: x.line = toks[i].line; x.pre = " "
+            for x in new: x.line = toks[i].line   # spacing as written in the directive (`::` stays `::`)
             if new: new[0].pre = toks[i].pre
             out.extend(new); i += len(f); n += 1; continue
         out.append(toks[i]); i += 1
@@ -749,4 +749,20 @@ def R_closuretuplepat(toks):
                 new[2].pre = ""; pat[0].pre = " "
                 out[i:j] = new; n += 1; i += len(new); continue
         i += 1
+    return out, n
+
+def R_castlossblock(toks, arg):
+    """a block statement annotated `#[allow(clippy::cast_precision_loss)]` — floating-point arithmetic (and `write!` of a float),
+    which Verus does not take — is replaced by the call `crate::cast_precision_loss_block(<args>)?;`, an unspecified shim; the
+    directive's argument names the locals handed to it (`a|b` = `a, b`). What the block computes is NOT decided."""
+    pat = ["#", "[", "allow", "(", "clippy", ":", ":", "cast_precision_loss", ")", "]"]
+    out = []; n = 0; i = 0
+    while i < len(toks):
+        if [x.text for x in toks[i:i+len(pat)]] == pat and i + len(pat) < len(toks) and toks[i+len(pat)].text == "{":
+            e = match_close(toks, i + len(pat))
+            new, _ = tokenize("crate::cast_precision_loss_block(" + ", ".join(arg.split("|")) + ")?;")
+            for x in new: x.line = toks[i].line; x.pre = ""
+            new[0].pre = toks[i].pre
+            out.extend(new); i = e + 1; n += 1; continue
+        out.append(toks[i]); i += 1
     return out, n
